@@ -122,6 +122,18 @@ static void scen_c09(int histories, int rounds) {
                 uint8_t p[4] = { (uint8_t)(len >> 8), (uint8_t)len, (uint8_t)(off >> 8), (uint8_t)off };
                 Rsp r = c9_cmd(&b, CC_NV_Read, ah, x, p, 4);
                 tr_begin("read handle=%u auth=%u size=%d offset=%d rc=%u", x->h, ah, len, off, r.rc); if (r.rc == 0) trhex("data", r.p + 16, g16(r.p + 14)); tr_end();
+                if (chance(35)) {   /* the same bytes through NV_Certify (unsigned attestation) */
+                    int cl = len > 1024 ? 1025 : len;
+                    const char *a = c9_authfor(ah, x);
+                    cmd_begin(&b, ST_SESSIONS, 0x184 /* NV_Certify */); b_u32(&b, RH_NULL); b_u32(&b, ah); b_u32(&b, x->h);
+                    { size_t at = b.n; b_u32(&b, 0); b_u32(&b, RS_PW); b_u16(&b, 0); b_u8(&b, 0); b_u16(&b, 0); b_u32(&b, RS_PW); b_u16(&b, 0); b_u8(&b, 0); b_2b(&b, a, strlen(a)); b_put32(&b, at, (uint32_t)(b.n - at - 4)); }
+                    b_u16(&b, 0); b_u16(&b, ALG_NULL); b_u16(&b, cl); b_u16(&b, off);
+                    Rsp cr = run(&b);
+                    tr_begin("certify handle=%u auth=%u size=%d offset=%d rc=%u", x->h, ah, cl, off, cr.rc);
+                    if (cr.rc == 0) { Rd rd = rsp_params(&cr, 0); r_u16(&rd); r_u32(&rd); r_u16(&rd); uint16_t l; r_2b(&rd, &l); r_2b(&rd, &l); r_u64(&rd); r_u32(&rd); r_u32(&rd); r_u8(&rd); r_u64(&rd);
+                        const uint8_t *nm = r_2b(&rd, &l); uint8_t nmc[70]; int nl = l <= 70 ? l : 0; memcpy(nmc, nm, nl); uint16_t ao = r_u16(&rd); const uint8_t *d = r_2b(&rd, &l);
+                        if (!rd.err) { trhex("name", nmc, nl); fprintf(g_tr, " aoffset=%u", ao); trhex("data", d, l); } }
+                    tr_end(); }
             } else if (op < 52) { Rsp r = c9_cmd(&b, CC_NV_Increment, ah, x, NULL, 0); tr("increment handle=%u auth=%u rc=%u", x->h, ah, r.rc); }
             else if (op < 58) { uint8_t p[2 + 48]; int len = rnd(49); p[0] = 0; p[1] = len; for (int q = 0; q < len; q++) p[2 + q] = rnd(256);
                 Rsp r = c9_cmd(&b, CC_NV_Extend, ah, x, p, 2 + len); tr_begin("extend handle=%u auth=%u rc=%u", x->h, ah, r.rc); trhex("data", p + 2, len); tr_end(); }
